@@ -235,7 +235,10 @@ static void dist_ops(World &w, const Op &o, int ri) {
     }
     unsigned nr = 0; hwloc_distances_get(t, &nr, nullptr, 0, 0); if (!nr) { r.ev("dist_remove: nothing to remove"); return; }
     std::vector<struct hwloc_distances_s *> ds(nr); unsigned n2 = nr; if (hwloc_distances_get(t, &n2, ds.data(), 0, 0) || n2 != nr) viol0(w, own, "dist.get_failed", "distances_get before release_remove failed");
-    unsigned v = (unsigned)(o.u("idx") % nr); for (unsigned i = 0; i < nr; i++) if (i != v) hwloc_distances_release(t, ds[i]);
+    // the victim is chosen by content, not by list position: an XML-reloaded twin holds the same structures in another order (homogeneous first)
+    std::vector<std::pair<std::string, unsigned>> keyed; for (unsigned i = 0; i < nr; i++) { const char *nm0 = hwloc_distances_get_name(t, ds[i]); std::string key = std::string(nm0 ? nm0 : "\x01") + "|" + std::to_string(ds[i]->kind) + "|"; for (unsigned a = 0; a < ds[i]->nbobjs; a++) key += std::to_string(ds[i]->objs[a] ? (unsigned long long)ds[i]->objs[a]->gp_index : 0ULL) + ","; key += "|"; for (unsigned a = 0; a < ds[i]->nbobjs * ds[i]->nbobjs; a++) key += std::to_string((unsigned long long)ds[i]->values[a]) + ","; keyed.push_back({key, i}); }
+    std::stable_sort(keyed.begin(), keyed.end());
+    unsigned v = keyed[o.u("idx") % nr].second; for (unsigned i = 0; i < nr; i++) if (i != v) hwloc_distances_release(t, ds[i]);
     errno = 0; int rc = hwloc_distances_release_remove(t, ds[v]); int e = errno; r.ev("dist_remove release_remove #%u r%d -> %d", v, ri, rc);
     if (R.adopted) { if (rc == 0) viol0(w, "C19", "shm.modify_not_refused", "distances_release_remove on an adopted topology returned %d errno %d", rc, e); if (rc) hwloc_distances_release(t, ds[v]); return; }
     if (rc) viol0(w, own, "dist.remove_failed", "distances_release_remove failed, errno %d", e);
